@@ -83,20 +83,79 @@ def _worker_init(modname: str) -> None:
         _MOD.worker_init()
 
 
+def _in_fork(fn, hard_s: float):
+    """Run fn() in a forked child of this (never-used) worker: every chunk --
+    or, for checks with ISOLATE = "run", every run -- starts from import-time
+    state only, so results cannot depend on what the worker did before, even on
+    a tree that keeps hidden process-global state."""
+    import pickle
+
+    r, w = os.pipe()
+    pid = os.fork()
+    if pid == 0:
+        code = 0
+        try:
+            os.close(r)
+            signal.signal(signal.SIGALRM, signal.SIG_DFL)
+            signal.alarm(int(hard_s) + 5)
+            try:
+                data = pickle.dumps(("ok", fn()))
+            except BaseException as exc:  # noqa: BLE001
+                data = pickle.dumps(("err", "".join(traceback.format_exception(exc))))
+            with os.fdopen(w, "wb") as fd:
+                fd.write(data)
+        except BaseException:  # noqa: BLE001
+            code = 1
+        finally:
+            os._exit(code)
+    os.close(w)
+    chunks = []
+    with os.fdopen(r, "rb") as fd:
+        while True:
+            b = fd.read(1 << 16)
+            if not b:
+                break
+            chunks.append(b)
+    _, status = os.waitpid(pid, 0)
+    raw = b"".join(chunks)
+    if not raw:
+        raise HarnessError(f"run child died (wait status {status})")
+    kind, val = pickle.loads(raw)
+    if kind == "err":
+        raise HarnessError("run child raised:\n" + val)
+    return val
+
+
 def _run_chunk(modname: str, tier: str, base: int, start: int, end: int, hard_s: float, keep_digests: bool) -> dict:
     mod = _MOD
     assert mod is not None and mod.__name__ == modname
-    faulthandler.dump_traceback_later(hard_s, exit=True)
+    faulthandler.dump_traceback_later(hard_s + 30, exit=True)
     try:
+        def one(i: int) -> dict:
+            s = seeds.run_seed(base, mod.PROPERTY, tier, i)
+            r = mod.run_one(s, tier, i)
+            r["_seed"] = s
+            if hasattr(mod, "export_state"):
+                r["_state"] = mod.export_state()
+            return r
+
+        if getattr(mod, "ISOLATE", "chunk") == "run":
+            runs = []
+            for i in range(start, end):
+                r = _in_fork(lambda i=i: one(i), hard_s)
+                if "_state" in r:
+                    mod.import_state(r.pop("_state"))
+                runs.append(r)
+        else:
+            runs = _in_fork(lambda: [one(i) for i in range(start, end)], hard_s)
         stats: Counter = Counter()
         sigs = set()
         digests: List[str] = []
         violations: List[dict] = []
         samples: List[Any] = []
         steps = 0
-        for i in range(start, end):
-            s = seeds.run_seed(base, mod.PROPERTY, tier, i)
-            r = mod.run_one(s, tier, i)
+        for i, r in zip(range(start, end), runs):
+            s = r["_seed"]
             digests.append(r["digest"])
             if r.get("sig") is not None:
                 sigs.add(r["sig"])
@@ -109,6 +168,7 @@ def _run_chunk(modname: str, tier: str, base: int, start: int, end: int, hard_s:
                 v = dict(v)
                 v["run_index"] = i
                 v["run_seed"] = s
+                v["chunk_start"] = start
                 if len(violations) < 200:
                     violations.append(v)
                 stats["violations_raw"] += 1
@@ -158,7 +218,7 @@ def replay_isolated(modname: str, payload: dict, timeout_s: float = 30.0) -> Lis
                 mod.worker_init()  # forks the golden zygote: before any watchdog is armed
             signal.signal(signal.SIGALRM, signal.SIG_DFL)
             signal.alarm(int(timeout_s) + 1)
-            out = mod.replay(payload)
+            out = replay_payload(mod, payload)
             data = json.dumps({"ok": True, "violations": out}, default=repr).encode()
         except BaseException as exc:  # noqa: BLE001
             data = json.dumps({"ok": False, "error": "".join(traceback.format_exception(exc))}).encode()
@@ -207,9 +267,24 @@ def replay_isolated(modname: str, payload: dict, timeout_s: float = 30.0) -> Lis
     return res["violations"]
 
 
+def replay_payload(mod: Any, payload: dict) -> List[dict]:
+    """mod.replay(payload), or -- for a violation that needs the runs before it in
+    its chunk (hidden cross-run state in the tree under test) -- re-execution of
+    the chunk from its start up to the violating run, in this fresh process."""
+    cr = payload.get("chunk_replay") if isinstance(payload, dict) else None
+    if cr is None:
+        return mod.replay(payload)
+    out: List[dict] = []
+    for i in range(cr["start"], cr["upto"] + 1):
+        r = mod.run_one(seeds.run_seed(cr["base"], mod.PROPERTY, cr["tier"], i), cr["tier"], i)
+        if i == cr["upto"]:
+            out = [dict(v, payload=payload) for v in r.get("violations", [])]
+    return out
+
+
 def minimise(modname: str, mod: Any, viol: dict, budget_s: float) -> dict:
     """Greedy shrink: accept a candidate iff an isolated replay shows the same class+signature."""
-    if not hasattr(mod, "shrink_candidates"):
+    if not hasattr(mod, "shrink_candidates") or "chunk_replay" in viol["payload"]:
         return viol
     t0 = time.monotonic()
     best = viol
@@ -277,6 +352,7 @@ def run_check(modname: str, tier: str) -> int:
     truncated = False
     try:
         pending = {}
+        mismatches: List[str] = []
         it = iter(enumerate(chunks))
         results: Dict[int, dict] = {}
 
@@ -310,9 +386,7 @@ def run_check(modname: str, tier: str) -> int:
                 else:
                     merged["stats"]["determinism_rechecked_runs"] += res["end"] - res["start"]
                     if res["digest"] != results[ci]["digest"]:
-                        raise HarnessError(
-                            f"determinism mismatch: chunk {chunks[ci]} digests {results[ci]['digest']} vs {res['digest']}"
-                        )
+                        mismatches.append(f"chunk {chunks[ci]} digests {results[ci]['digest']} vs {res['digest']}")
             submit_more()
         for ci in sorted(results):
             res = results[ci]
@@ -337,6 +411,12 @@ def run_check(modname: str, tier: str) -> int:
     if harness_error is not None:
         print(f"HARNESS-ERROR property={prop}: {harness_error}", flush=True)
         return EXIT_HARNESS
+    if mismatches and not merged["violations"]:
+        # every chunk starts from a pristine fork, so this is a defect of the harness
+        print(f"HARNESS-ERROR property={prop}: determinism mismatch: {mismatches[0]}", flush=True)
+        return EXIT_HARNESS
+    if mismatches:
+        print(f"note: {len(mismatches)} re-run chunk(s) gave different digests; violations were found, so the tree under test is the suspect", flush=True)
 
     extra: Dict[str, Any] = {}
     if hasattr(mod, "finish"):
@@ -369,8 +449,15 @@ def run_check(modname: str, tier: str) -> int:
             # confirm in isolation, then minimise
             confirm = replay_isolated(modname, v["payload"])
             if not any(c["signature"] == v["signature"] for c in confirm):
-                print(f"HARNESS-ERROR property={prop}: violation {s} did not reproduce on isolated replay", flush=True)
-                return EXIT_HARNESS
+                # needs the runs before it in its chunk: hidden cross-run state
+                cr = {"chunk_replay": {"tier": tier, "base": base, "start": v["chunk_start"], "upto": v["run_index"]}}
+                confirm = replay_isolated(modname, cr, timeout_s=hard_s)
+                if not any(c["signature"] == v["signature"] for c in confirm):
+                    print(f"HARNESS-ERROR property={prop}: violation {s} reproduces neither alone nor with its chunk", flush=True)
+                    return EXIT_HARNESS
+                print("  note: reproduces only after the earlier runs of its chunk (state survives between runs); replay file re-executes the chunk", flush=True)
+                v = dict(v, payload=cr)
+                _write_replay(path, modname, prop, v, minimised=False)
             mv = minimise(modname, mod, v, min_budget / max(1, min(5, len(unknown))))
             _write_replay(path, modname, prop, mv, minimised=True)
         except HarnessError as exc:
@@ -447,7 +534,7 @@ def run_replay(path: str) -> int:
     mod = importlib.import_module(modname)
     if hasattr(mod, "worker_init"):
         mod.worker_init()
-    vs = mod.replay(doc["payload"])
+    vs = replay_payload(mod, doc["payload"])
     same = [v for v in vs if v["signature"] == doc["signature"]]
     for v in vs:
         print(f"  reproduced: class={v['class']} signature={v['signature']}\n    {v.get('what', '')}")
